@@ -89,9 +89,15 @@ def buffered_impl(ctx, rule, F, cfg):
             bodies.append((h, "async", b))
     for h, kind, b in bodies:
         nret = 0
-        for p in ctx.paths(b, max_paths=60000):
-            if ends(p) not in ("ret", "loop"):
-                continue
+        allp = [p for p in ctx.paths(b, max_paths=60000) if ends(p) in ("ret", "loop")]
+        # running counters: loop-carried integers whose update is `own previous value + something` on a path that consumed input
+        counters = set()
+        for p in allp:
+            if p[-1][0] == "loop" and any(c[0] == "call" and name_is(c[2], "consume") for c in p):
+                for nm, v in p[-1][2].items():
+                    if v[0] == "bin" and v[1] == "Add" and (nm + "'") in addends(v)[0]:
+                        counters.add(nm)
+        for p in allp:
             # split at the loop header
             hi = [i for i, e in enumerate(p) if e[0] == "head"]
             pre = p[: hi[0]] if hi else []
@@ -113,12 +119,12 @@ def buffered_impl(ctx, rule, F, cfg):
             pos = [e for e in body if e[0] == "store" and e[2][0] == "pl" and root_of(e[2])[0] in ("arg",) and (root_of(e[2])[2] == "position" or upvar_of(b, e[2]) == "position")]
             copied = [c for c in body if c[0] == "call" and name_is(c[2], "extend_from_slice")]
             if p[-1][0] == "loop":
-                carried = p[-1][2].get("read")
-                if carried is not None:
-                    want = addends(("bin", "Add", ("phi", 0, 0, "read"), ("c", "u64", 0)))
-                    got = addends(carried)
-                    exp = (sorted(["read'"] + ca[0]), ca[1])
-                    ctx.ob(rule, site + ":loop:read+=consumed", got == exp, "round the loop the running count grows by exactly what was consumed: read = %s, consumed %s" % (got, ca), config=cfg)
+                mine = [nm for nm in sorted(counters) if nm in p[-1][2]]
+                if mine:
+                    for nm in mine:
+                        got = addends(p[-1][2][nm])
+                        exp = (sorted([nm + "'"] + ca[0]), ca[1])
+                        ctx.ob(rule, site + ":loop:%s+=consumed" % nm, got == exp, "round the loop the running count grows by exactly what was consumed: %s = %s, consumed %s" % (nm, got, ca), config=cfg)
                 elif cons:
                     # no running counter: the position must be advanced directly
                     ok = len(pos) == 1 and addends(pos[0][3][3]) == ca
@@ -141,10 +147,12 @@ def buffered_impl(ctx, rule, F, cfg):
             v = pos[0][3]
             ok = v[0] == "bin" and v[1] == "Add"
             amount = addends(v[3]) if ok else None
-            has_read = any("read'" == a for a in (amount[0] if amount else []))
-            exp = (sorted((["read'"] if has_read else []) + ca[0]), ca[1])
+            # a helper that keeps a running count of what earlier iterations consumed must add it on every exit inside the loop
+            # (unless the exit is guarded by `count == 0`)
+            zero = {e[2][2][3] for e in body if e[0] == "switch" and e[2][0] == "bin" and e[2][1] == "Eq" and e[2][2][0] == "phi" and e[2][3][0] == "c" and e[2][3][2] == 0 and e[3] != 0}
+            exp = (sorted(([c + "'" for c in counters if c not in zero] if hi else []) + ca[0]), ca[1])
             ctx.ob(rule, site + "[%s]:advanced=read+consumed" % tag, ok and amount == exp,
-                   "position += (bytes counted so far) + (bytes consumed on this exit): advanced %s, consumed %s" % (amount, ca), loc=b.loc(pos[0][4]), config=cfg)
+                   "position += (bytes counted so far) + (bytes consumed on this exit): advanced %s, expected %s (running counters %s)" % (amount, exp, sorted(counters)), loc=b.loc(pos[0][4]), config=cfg)
             # copied bytes: found -> available[..i] with i+1 consumed; not found -> all of available
             if copied and ("Ok" in rv or "UpToMarkup" in rv) and h in ("read_text", "read_with"):
                 a = copied[-1][3][1]
